@@ -4,7 +4,7 @@
     reported code naming a rule the input really breaks."
 
    read / validate : Model/Validation.v (the code as written); violates : Spec/Rules.v (the documentation page, readings R1-R10);
-   known : Spec/Rules.v (five structural deviation classes K6..K9 and G2, each one a finding with a witness below; K1, K2, K3 were
+   known : Spec/Rules.v (three structural deviation classes K7, K9 and G2 - K6 and K8 were repaired in /repo -, each one a finding with a witness below; K1, K2, K3 were
    repaired in /repo by c324ed4, d5aa3e7, 89050ae and K4, K5, K10 by d67b161, 7653bff, 11fbd19: all six are covered by the
    theorems now);
    gen_* : Generated/RuleTable.v (re-extracted from the Rust sources and the documentation page on every run).
@@ -71,16 +71,13 @@ Theorem C10_transport_ok_is_square_and_covers_distances : forall profiles ms siz
   /\ (forall m, In m ms -> (List.length (m_dist m) <= size * size)%nat).
 Proof. exact transport_ok_square_l. Qed.
 
-(* the step in front of validation when no routing matrix is supplied (map_to_problem_with_approx): with an index location nothing
-   is approximated, so it cannot panic (the document then gets E1503, and E1502 when coordinates are present too); without any
-   profile nothing is approximated either (repair 11fbd19 of finding K10: validation then reports E1501); positive speeds never
-   panic; the only panicking inputs left are coordinate-only documents with a profile and an explicit speed <= 0 (known class X14);
-   `approx_panics` of `read` is this step on reduced documents (no explicit speeds): it never panics *)
+(* the step in front of validation when no routing matrix is supplied (map_to_problem_with_approx) can no longer panic: nothing is
+   approximated with an index location, without a profile (repair 11fbd19 of K10: validation reports E1501) or with an explicit speed
+   that is not positive (repair of X14: the matrix step then answers E0002); `approx_skipped` says when create_approx_matrices
+   returns no matrix *)
 Theorem C10_prevalidation_guard :
-  (forall profiles speeds, pre_validation_panics true profiles speeds = false)
-  /\ (forall has_indices speeds, pre_validation_panics has_indices [] speeds = false)
-  /\ (forall has_indices profiles speeds, (forall s, In s speeds -> 0 < s) -> pre_validation_panics has_indices profiles speeds = false)
-  /\ (forall profiles speeds, pre_validation_panics false profiles speeds = true <-> profiles <> [] /\ exists s, In s speeds /\ s <= 0)
+  (forall has_indices profiles speeds, pre_validation_panics has_indices profiles speeds = false)
+  /\ (forall profiles speeds, approx_skipped profiles speeds = true <-> profiles = [] \/ exists s, In s speeds /\ s <= 0)
   /\ (forall d, approx_panics d = false).
 Proof. exact prevalidation_l. Qed.
 
@@ -127,9 +124,13 @@ Theorem C10_fixed_K4_K5_K10_regression :
   /\ known w_k5 = false /\ validate w_k5 = VErr [1303] /\ read w_k5 = RErr [1303]
   /\ known w_k10 = false /\ violates 1501 w_k10 = true /\ read w_k10 = RErr [1501; 1505].
 Proof. exact fixed_regression2_l. Qed.
-(* K6, K7, K9: documents that break no documented rule, pass validation and panic in the reader *)
-Theorem C10_read_total_K6_refuted : exists d, k6_capacity_empty d = true /\ breaks_no_rule d /\ validate d = VOk /\ read d = RPanic.
-Proof. exists w_k6. exact k6_witness. Qed.
+(* K7, K9: documents that break no documented rule, pass validation and panic in the reader *)
+(* K6 (`capacity: []`: read_fleet unwrapped `first()`) and K8 (E1102 on empty demand vectors) were repaired in /repo: the former
+   witnesses are outside `known` now, break no rule and are accepted *)
+Theorem C10_fixed_K6_K8_regression :
+  k6_capacity_empty w_k6 = true /\ known w_k6 = false /\ breaks_no_rule w_k6 /\ read w_k6 = ROk
+  /\ k8_empty_demand_vectors w_k8 = true /\ known w_k8 = false /\ violates 1102 w_k8 = false /\ read w_k8 = ROk.
+Proof. exact fixed_regression3_l. Qed.
 Theorem C10_read_total_K7_refuted : exists d, k7_over8 d = true /\ breaks_no_rule d /\ validate d = VOk /\ read d = RPanic.
 Proof. exists w_k7. exact k7_witness. Qed.
 Theorem C10_read_total_K9_refuted : exists d, k9_no_vehicles d = true /\ breaks_no_rule d /\ validate d = VOk /\ read d = RPanic.
@@ -138,16 +139,14 @@ Proof. exists w_k9. exact k9_witness. Qed.
    answers E0002 (found while the reader behind validation was modelled step by step; the first version of `read` lacked this step) *)
 Theorem C10_accept_iff_G2_refuted : exists d, g2_required_breaks_of d = true /\ breaks_no_rule d /\ validate d = VOk /\ read d = RErr [2].
 Proof. exists w_g2. exact g2_witness_base. Qed.
-(* K8  pickups and deliveries with empty demand vectors: E1102 reported although the sums are equal *)
-Theorem C10_codes_exact_K8_refuted : exists d, k8_empty_demand_vectors d = true /\ read d = RErr [1102] /\ violates 1102 d = false.
-Proof. exists w_k8. exact k8_witness. Qed.
+
 
 (* ====================================================================================================================== *)
 (* The EXTENDED document (Model/ValidationX.v :: xdoc): relations, objectives, job values, task orders, coordinate / index /   *)
 (* mixed locations with supplied (incl. timestamps, errorCodes) or approximated matrices, recharge stations, clustering       *)
 (* profile, explicit speeds, resource capacities.  xvalidate / xread: Model/ValidationX.v, Model/Reader.v (the code as        *)
 (* written); xviolates: Spec/RulesX.v (the documentation page, readings R1-R20); xknown: the recorded deviation classes        *)
-(* K6-K9 (on the base document; K7 also for resource capacities), X11, X14, X16, G1, G2.                                        *)
+(* K7, K9 (on the base document; K7 also for resource capacities), X11, X16, G1, G2 (K6, K8, X14: repaired).                                        *)
 (* ====================================================================================================================== *)
 
 (* every rule function of the relation / objective / routing groups as written IS its documented rule, for every document
@@ -207,16 +206,19 @@ Theorem C10_x_codes_exact_partial : forall d cs, xknown d = false -> xread d = R
   \/ (cs <> [] /\ NoDup cs /\ forall c, In c cs <-> In c gen_doc_validation /\ xviolates c d = true).
 Proof. exact xcodes_exact_l. Qed.
 
-(* documents read WITHOUT routing matrices (String::read_pragmatic / ApiProblem::read_pragmatic): once E1500, E1501 and E1503 hold,
+(* documents read WITHOUT routing matrices (String::read_pragmatic / ApiProblem::read_pragmatic) and without an explicit speed <= 0
+   (then nothing is approximated and the matrix step answers E0002, C10_x_fixed_X14_regression): once E1500, E1501 and E1503 hold,
    the approximated matrices (one n x n matrix per profile) always become transport costs, so the two clauses carry no E0002 part *)
-Theorem C10_x_approx_matrices_always_fit : forall d, x_matrices d = None ->
+Theorem C10_x_approx_matrices_always_fit : forall d, x_matrices d = None -> existsb (fun s => s <=? 0) (x_speeds d) = false ->
   xviolates 1500 d = false -> xviolates 1501 d = false -> xviolates 1503 d = false ->
   xtransport_fails (x_profiles d) (seen_matrices d) = false.
 Proof. exact approx_transport_ok. Qed.
 Theorem C10_x_accept_iff_without_matrices_partial : forall d, xknown d = false -> x_matrices d = None ->
+  existsb (fun s => s <=? 0) (x_speeds d) = false ->
   (xread d = ROk <-> forall c, In c gen_doc_validation -> xviolates c d = false).
 Proof. exact xaccept_iff_nomatrix_l. Qed.
-Theorem C10_x_codes_exact_without_matrices_partial : forall d cs, xknown d = false -> x_matrices d = None -> xread d = RErr cs ->
+Theorem C10_x_codes_exact_without_matrices_partial : forall d cs, xknown d = false -> x_matrices d = None ->
+  existsb (fun s => s <=? 0) (x_speeds d) = false -> xread d = RErr cs ->
   cs <> [] /\ NoDup cs /\ forall c, In c cs <-> In c gen_doc_validation /\ xviolates c d = true.
 Proof. exact xcodes_exact_nomatrix_l. Qed.
 
@@ -275,11 +277,15 @@ Theorem C10_x_nonvacuous_rejected : xknown xw_rejected = false /\ xread xw_rejec
 Proof. exact xnonvacuous_err_l. Qed.
 
 (* ---- the unrestricted clauses fail on the extended document: one witness per class ---- *)
-(* X11, X14, X16: documents that break no documented rule and panic (in read_locks / before validation / in read_recharges) *)
+(* X11, X16: documents that break no documented rule and panic (in read_locks / in read_recharges) *)
 Theorem C10_x_read_total_X11_refuted : exists d, x11_special_without_job d = true /\ xbreaks_no_rule d /\ xvalidate d = VOk /\ xread d = RPanic.
 Proof. exists xw_x11. exact x11_witness. Qed.
-Theorem C10_x_read_total_X14_refuted : exists d, x14_speed_not_positive d = true /\ xbreaks_no_rule d /\ xvalidate d = VOk /\ xread d = RPanic.
-Proof. exists xw_x14. exact x14_witness. Qed.
+(* X14 (speed <= 0 asserted before validation) was repaired in /repo: the former witness is outside `xknown`, breaks no rule, and the
+   matrix step answers E0002 (no matrices were approximated) *)
+Theorem C10_x_fixed_X14_regression :
+  x14_speed_not_positive xw_x14 = true /\ xknown xw_x14 = false /\ xbreaks_no_rule xw_x14 /\ xvalidate_pre xw_x14 = VOk
+  /\ xtransport_fails (x_profiles xw_x14) (seen_matrices xw_x14) = true /\ xread xw_x14 = RErr [2].
+Proof. exact x14_fixed_l. Qed.
 Theorem C10_x_read_total_X16_refuted : exists d, x16_recharge_times d = true /\ xbreaks_no_rule d /\ xvalidate d = VOk /\ xread d = RPanic.
 Proof. exists xw_x16. exact x16_witness. Qed.
 (* G1, G2: documents that break no documented rule, whose matrices are fine, and that are rejected with E0000 / E0002 *)
